@@ -228,6 +228,9 @@ def run(ctx: Ctx):
     # lists / tuples / dict displays / constructor calls nested in each other at any depth vs Model/Nest.v
     from .. import nestassign as na
     na.check_part(ctx, 400 if not ctx.thorough else 5000, "C02", unm_choices=(0, 0, 0, 0.2))
+    # `in` snapshots whose previous value is no list display (replaced as a whole) vs Model/CollReplace.v
+    from .. import collreplace as cr
+    cr.check_part(ctx, 120 if not ctx.thorough else 1600, "C02")
     # real sessions
     sp = [gen_prog(ctx.rng, i) for i in range(SESSION_PROGS if not ctx.thorough else 80)]
     for p, o in zip(sp, tmap(run_session_pair, sp)):
@@ -259,6 +262,9 @@ def replay(ctx: Ctx, data):
     if isinstance(data.get("case"), dict) and data["case"].get("kind") == "twins":
         from .. import twins
         return twins.replay(data["case"])
+    if isinstance(data.get("case"), dict) and data["case"].get("kind") == "collreplace":
+        from .. import collreplace as cr
+        return cr.replay_case(data["case"]["case"])
     if isinstance(data.get("case"), dict) and data["case"].get("kind") == "nest":
         from .. import nestassign as na
         return na.replay_case(data["case"])
